@@ -1477,6 +1477,18 @@ func leafInputs(c *Ctx) []string {
 		"$CondorVersion: 25.4.0 2025-10-31 $", "25.4", "1.2.3.4.5", ".", "..", "1..2", "9999999999999999999999.1.1", "-1.-2.-3", "$::$", "1.x 2.3",
 		"1 <a:1> 2 3", "x", " ", "18446744073709551616 <a>",
 	}
+	// structure-aware claim ids: every combination of a small grammar of parts, well-formed and
+	// damaged (IPv6 sinfuls carry ']' and '[' of their own; info blocks unclosed, unopened, doubled;
+	// secrets absent / short / with separators), so that each separator search meets each shape
+	for _, sinful := range []string{"<1.2.3.4:5>", "<[::1]:9618>", "<[::1]:9618?sock=a#1>", "<h:1?addrs=[--1]-9>", "", "]", "[x"} {
+		for _, mid := range []string{"#1700000000#7#", "#1#", "#", "##", ""} {
+			for _, info := range []string{"[Encryption=\"YES\";]", "[Encryption=\"YES\";", "Encryption=\"YES\";]", "[", "]", "[]", "[[A=\"b\";]]", "[A=\"]\";]", ""} {
+				for _, secret := range []string{"0123456789abcdef0123456789abcdef0123456789abcdef0123456789abcdef", "00ff", "", "#x", "]"} {
+					base = append(base, sinful+mid+info+secret)
+				}
+			}
+		}
+	}
 	syms := []string{"#", "[", "]", "\"", ";", "=", "?", "&", "%", "<", ">", ":", ".", " ", "+", "\\", "\x00", "\xff", "%41", "%4", "sock=", "ccbid=", "SessionKey:", "A", "1"}
 	for i := 0; i < c.Pick(400, 20000); i++ {
 		var b strings.Builder
